@@ -755,6 +755,8 @@ class Comparer:
                 self.d(path, f"type class: engine symbol of sort {want}, real {r['t']}")
             self.sym(path, e, r["v"], r["t"])
             return
+        if e["t"] == "int" and r["t"] == "float" and e["v"] == 0 and r["v"] == 0.0:
+            return      # a sum over an empty (or all-false) symbolic range is the integer 0 in the engine: same number (design note)
         if e["t"] != r["t"]:
             self.d(path, f"type class: engine {e['t']} ({e['v']!r}) real {r['t']} ({r['v']!r})")
             return
@@ -1399,8 +1401,10 @@ def table_signature(prop, funcs, hooks=True):
 
 def tables_for(funcs, props=None, hooks=True):
     """one representative property per distinct contract tuple"""
+    if props is not None:
+        return list(props)          # tables named by the snippet: all of them
     seen, out = {}, []
-    for p in (props if props is not None else PROPS):
+    for p in PROPS:
         s = table_signature(p, funcs, hooks)
         if s not in seen:
             seen[s] = p
@@ -1462,6 +1466,64 @@ def run_real(snips):
     return json.loads(p.stdout)
 
 
+def check_axioms(seed, n=300):
+    """the axiom instances pyvc/axioms.py generates for the uninterpreted arithmetic symbols (sqrt, exp, log, cos, sin, arccos, atan2,
+    POW, rintz, round6, round8, pi) evaluated with the real functions (CPython math; exact rationals for rounding) at random and edge
+    arguments.  -> list of result dicts in the format of run_snippet"""
+    import random
+    rng = random.Random(seed)
+    R = lambda x: z3.RealVal(str(Fraction(x).limit_denominator(10 ** 9)))
+    edge = [0, 1, -1, Fraction(1, 2), Fraction(-1, 2), Fraction(3, 2), Fraction(5, 2), Fraction(-5, 2), 2, 10, Fraction(1, 3), Fraction(10 ** 6 + 1, 2), Fraction(1, 2 * 10 ** 6), Fraction(3, 2 * 10 ** 6), Fraction(5, 2 * 10 ** 8)]
+
+    def pts(k, lo, hi, extra=()):
+        xs = [e for e in list(edge) + list(extra) if lo <= e <= hi]
+        while len(xs) < k:
+            xs.append(Fraction(round(rng.uniform(float(lo), float(hi)), rng.choice([1, 3, 7]))).limit_denominator(10 ** 7))
+        return xs
+    specs = [
+        ("sqrt", lambda: [[sv.F_SQRT(R(x))] for x in pts(n, 0, 50)] + [[sv.F_SQRT(R(x)), sv.F_SQRT(R(y))] for x, y in zip(pts(40, 0, 9), pts(40, 0, 9)[::-1])] + [[sv.F_SQRT(R(-1))]]),
+        ("rintz", lambda: [[sv.F_RINT(R(x))] for x in pts(n, -50, 50) + [Fraction(2 * k + 1, 2) for k in range(-6, 7)]]),
+        ("round6", lambda: [[sv.F_ROUND6(R(x)), sv.F_ROUND6(R(y))] for x, y in zip(pts(n, -5, 5), pts(n, -5, 5)[::-1])]),
+        ("round8", lambda: [[sv.F_ROUND8(R(x)), sv.F_ROUND8(R(y))] for x, y in zip(pts(n, -5, 5), pts(n, -5, 5)[::-1])]),
+        ("exp", lambda: [[sv.F_EXP(R(x)), sv.F_LOG(sv.F_EXP(R(x)))] for x in pts(n, -20, 20)]),
+        ("log", lambda: [[sv.F_LOG(R(x))] for x in pts(n, Fraction(1, 100), 50)]),
+        ("cos", lambda: [[sv.F_COS(R(x)), sv.F_SIN(R(x))] for x in pts(n, -10, 10)]),
+        ("arccos", lambda: [[sv.F_ARCCOS(R(x))] for x in pts(n, -1, 1)] + [[sv.F_ARCCOS(R(2))]]),
+        ("atan2", lambda: [[sv.F_ATAN2(R(y), R(x))] for x, y in zip(pts(n, -5, 5), pts(n, -5, 5)[::-1])] + [[sv.F_ATAN2(R(0), R(-1))], [sv.F_ATAN2(R(0), R(0))], [sv.F_ATAN2(R(-1), R(0))]]),
+        ("POW", lambda: [[sv.F_POW(R(a), R(k))] for a, k in zip(pts(n, 0, 6), pts(n, -3, 3)[::-1])] + [[sv.F_POW(R(a), z3.Real("k!ax") + k0)] for a in pts(20, Fraction(1, 10), 4) for k0 in (1, 2, -1, -3)]),
+    ]
+    out = []
+    for name, mk in specs:
+        runs = []
+        bad = 0
+        groups = mk()
+        for gi, terms in enumerate(groups):
+            bind = {("k!ax", ()): Fraction(rng.randint(-20, 20), 8)}
+            ze = ZEval(bind, tol=1e-9)
+            try:
+                insts = axioms.instances([t == t for t in terms])
+            except Exception as e:
+                runs.append({"table": "axioms", "case": gi, "status": "DISAGREE", "detail": [f"axioms.instances failed: {type(e).__name__}: {e}"], "lib_used": []})
+                continue
+            fails = []
+            for f in insts:
+                try:
+                    if not ze(f):
+                        fails.append(str(z3.simplify(f))[:200])
+                except Unbound as u:
+                    if "division-by-zero" not in str(u):
+                        fails.append(f"not evaluable ({u}): {str(f)[:120]}")
+                except (ValueError, OverflowError):
+                    pass        # outside the real function's domain: the instance is vacuous or about NaN (A1)
+            if fails:
+                bad += 1
+                runs.append({"table": "axioms", "case": gi, "status": "DISAGREE", "detail": [f"axiom instance FALSE for {terms[0]}: " + fails[0]], "lib_used": []})
+            else:
+                runs.append({"table": "axioms", "case": gi, "status": "agree", "detail": [], "lib_used": []})
+        out.append({"id": f"axioms:{name}", "funcs": [f"axiom:{name}"], "cat": "axiom", "runs": runs, "kind": "axiom", "ms": 0})
+    return out
+
+
 def evidence_lib_names():
     import glob
     names = {}
@@ -1513,6 +1575,8 @@ def main():
             results = pool.map(run_snippet, jobs, chunksize=4)
     else:
         results = [run_snippet(j) for j in jobs]
+    if not args.filter or "axiom" in args.filter:
+        results = list(results) + check_axioms(args.seed)
     # ---- report
     counts = {"agree": 0, "DISAGREE": 0, "not-modelled": 0, "limitation": 0}
     solver_unknown = []
